@@ -83,7 +83,7 @@ class ThresholdPairCorr(Corr):
                 # one label, every estimate paired with an ordinary ground truth of that label, distinct confidences, headings all over the
                 # circle and distances spread over the threshold grid: the rankings in which a result that becomes a TP only at the looser
                 # threshold has a small heading weight (APH must still not drop)
-                scene = A.gen_scene(rng, n=rng.randint(3, 9))
+                scene = A.gen_scene(rng, n=rng.randint(3, 9) if rng.random() < 0.5 else rng.randint(10, 16))     # half of them rank >= 10 results
                 confs = rng.sample(range(1, 64), len(scene["results"]))
                 for r, cf in zip(scene["results"], confs):
                     if r["gt"] is None:
@@ -96,6 +96,17 @@ class ThresholdPairCorr(Corr):
             pool = IOU_T if A.MAXIMIZE[mode] else DIST_T
             t1 = [rng.choice(pool) for _ in targets]
             t2 = [loosen(rng, mode, t) for t in t1]
+            if i % 8 == 3:
+                # NUMERIC EDGE: a threshold of exactly 0 (falsy but valid) for one label, not necessarily the first: as the STRICT distance
+                # threshold (nothing is closer than 0: no TP of that label) under a small looser one, or as the LOOSE IoU threshold
+                j = rng.randrange(len(targets))
+                if A.MAXIMIZE[mode]:
+                    t1[j], t2[j] = rng.choice([0.0, 0.1, 0.25, 0.5]), 0.0
+                else:
+                    t1[j], t2[j] = 0.0, rng.choice([0.0, 0.125, 0.125, 0.5, 0.625])
+            if i % 6 == 4 and scene["results"]:
+                # ORDER: every result WITHOUT a ground truth is listed before the first result with one
+                scene["results"].sort(key=lambda r: r["gt"] is not None)
             n_gt = sum(1 for r in scene["results"] if r["gt"] is not None) + rng.randint(0, 2)
             case = {"scene": scene, "mode": mode, "targets": targets, "t_strict": t1, "t_loose": t2, "num_gt": n_gt}
             # scene level: the same results handed to Ap as the nested list get_scene_result builds ([[], frame 1, frame 2, ...])
@@ -293,11 +304,23 @@ class ThresholdPairCorr(Corr):
     def distribution(self, cases, obs):
         d = {"equal_thresholds": 0, "tp_set_changed": 0, "ap_changed": 0, "with_fp_label_gt": 0, "modes": {},
              "scene_level_nested_input": 0, "unmatched_extra_gt": {"ordinary": 0, "fp_labelled": 0, "copy_of_a_matched_gt": 0}, "fn_count_changed": 0,
-             "objects_2d": 0, "objects_2d_mode_without_matching_score": 0, "threshold_representation": {}, "int_typed_thresholds": 0}
+             "objects_2d": 0, "objects_2d_mode_without_matching_score": 0, "threshold_representation": {}, "int_typed_thresholds": 0,
+             "strict_distance_threshold_exactly_0": 0, "loose_iou_threshold_exactly_0": 0, "results_of_a_label_whose_strict_distance_threshold_is_0": 0,
+             "cases_ranking_10_or_more_results": 0, "max_results": 0, "every_gtless_result_listed_before_the_first_result_with_gt": 0}
         for c, o in zip(cases, obs):
             if "strict" not in o:
                 continue
             d["equal_thresholds"] += c["t_strict"] == c["t_loose"]
+            mx = A.MAXIMIZE[c["mode"]]
+            d["strict_distance_threshold_exactly_0"] += (not mx) and 0.0 in c["t_strict"]
+            d["loose_iou_threshold_exactly_0"] += mx and 0.0 in c["t_loose"]
+            if not mx:
+                d["results_of_a_label_whose_strict_distance_threshold_is_0"] += sum(1 for f in o["strict"]["ap"]["facts"] if f["thr"] == 0 and f["has_gt"] and not f["gt_fp"])
+            nres = len(c["scene"]["results"])
+            d["cases_ranking_10_or_more_results"] += nres >= 10
+            d["max_results"] = max(d["max_results"], nres)
+            gl = [r["gt"] is None for r in c["scene"]["results"]]
+            d["every_gtless_result_listed_before_the_first_result_with_gt"] += any(gl) and not all(gl) and gl == sorted(gl, reverse=True)
             d["tp_set_changed"] += o["strict"]["tp_flags"] != o["loose"]["tp_flags"]
             d["ap_changed"] += o["strict"]["ap"].get("ap") != o["loose"]["ap"].get("ap")
             d["scene_level_nested_input"] += c.get("nested") is not None and ap_supported(c)
@@ -319,7 +342,7 @@ class C08(Prop):
     id = "C08"
     props_file = "Props/C08.v"
     # redundant tie (core.gen_tie): these decision functions, translated from the source on every run, equal the hand model for all inputs
-    gen_tie_theorems = ['GenTie_CenterDistanceMatching_is_better_than', 'GenTie_PlaneDistanceMatching_is_better_than', 'GenTie_IOU2dMatching_is_better_than', 'GenTie_IOU3dMatching_is_better_than', 'GenTie_is_better_than_preconditions', 'GenTie_is_result_correct', 'GenTie_interpolate_precision_recall_list', 'GenTie__calculate_ap', 'GenTie_get_precision_recall_list', 'GenTie_get_positive_objects', 'GenTie_get_negative_objects']
+    gen_tie_theorems = ['GenTie_CenterDistanceMatching_is_better_than', 'GenTie_PlaneDistanceMatching_is_better_than', 'GenTie_IOU2dMatching_is_better_than', 'GenTie_IOU3dMatching_is_better_than', 'GenTie_is_better_than_preconditions', 'GenTie_is_result_correct', 'GenTie_interpolate_precision_recall_list', 'GenTie__calculate_ap', 'GenTie_get_precision_recall_list', 'GenTie_get_positive_objects', 'GenTie_get_negative_objects', 'GenTieSrc_C08_is_better_than_monotone']
     extra_props_files = ["Props/Pipeline.v"]     # the composed frame pipeline (C01 -> C10 -> C03 -> C04; C08 on it)
     design_ref = "DESIGN.md section 4, C08"
     technique = "Rocq proof (monotonicity of the interpolated area via Abel summation; case analysis of is_result_correct) on the C04 model; in-Coq correspondence at threshold pairs"
@@ -336,7 +359,9 @@ class C08(Prop):
             "every 2nd case also hands the results to Ap as the scene-level nested list [[]] + per-frame chunks (empty frames included) and requires the flat TP list / AP and monotonicity there; "
             "2/3 of the cases add 0-3 ground truths no estimate was paired with (fresh ordinary ones: FN at both thresholds; FP-labelled: TN at both; copies of a matched ground truth: counted only) to get_negative_objects; "
             "every 5th case uses 2D objects with integer ROIs (no APH; under PLANEDISTANCE / IOU3D there is no score and only the TP/FN status is compared); "
-            "thresholds are passed as Python floats, ints where integral, or numpy float64 in turn")
+            "thresholds are passed as Python floats, ints where integral, or numpy float64 in turn; "
+            "every 8th case forces a threshold of EXACTLY 0 for one label (any position in the per-label list): the strict distance threshold under a small looser one, or the loose IoU threshold; "
+            "half of the one-label heading stream ranks 10-16 results (the general stream 0-14); every 6th case lists every result without ground truth before the first result with one")
     assumptions = ["scores compared within 1e-9", "facts read through public getters of the real objects"]
     not_proved = ["list bookkeeping of get_negative_objects for unmatched ground truths (C03)", "binary64 rounding"]
 
